@@ -5,7 +5,7 @@
    field denotes; `next` = section offset + source offset + region size. *)
 From Coq Require Import ZArith List Bool.
 From Verif Require Import Codec.OffsetModel Labels.LabelsModel Labels.LabelsProofs Reloc.RelocModel Reloc.RelocProofs Reloc.InstalledImage.
-From Verif Require Import X86.X86Model Reloc.X86Meaning.
+From Verif Require Import X86.X86Model Reloc.X86Meaning Labels.A64Dec Reloc.A64Meaning.
 From Verif Require Import Sections.SectionModel Sections.SectionProofs Sections.ChunkModel Sections.CopyProofs Sections.JitReloc.
 Import ListNotations.
 Local Open Scope Z_scope.
@@ -241,3 +241,70 @@ Theorem C04_abs32_operand_designates_target : forall base asize atoff slots e o 
   (e_payload e + base + toff) mod 2 ^ 64 < 2 ^ 32.
 Proof. exact abs32_operand_designates_target. Qed.
 Print Assumptions C04_abs32_operand_designates_target.
+
+(* ---- round 4 ---- *)
+(* AArch64 run-time meaning through the structural decoder Labels.A64Dec: a label-bearing instruction with an ABSOLUTE target whose word
+   relocate_to_base patched (kAbsToRel, payload = target + region size) decodes to that instruction and designates the target *)
+Theorem C04_a64_reloc_designates_target : forall base asize atoff slots e o slots' i,
+  relocate_entry base asize atoff slots e = inl (o, slots') ->
+  e_kind e = RAbsToRel -> 4 < asize -> e_fmt e = fmt_of_kind (kind_of i) -> e_old e = a64_enc (set_imm i 0) ->
+  a64_wf (set_imm i 0) -> hole_ok (kind_of i) (e_old e) = true -> (forall r v, i <> IAdr true r v) ->
+  let pc := base + e_secoff e + e_off e in
+  exists v, a64_dec (o_word o) = Some (set_imm i v) /\
+            a64_site_target pc (o_word o) = Some ((e_payload e - e_region e) mod 2 ^ 64).
+Proof. exact a64_reloc_designates_target. Qed.
+Print Assumptions C04_a64_reloc_designates_target.
+
+(* label-delta expressions END TO END (embed_label_delta recorded as kExpression by the C03 model): after ANY label program and ANY layout
+   `offs` (so in particular C10's flatten), relocating the recorded entry stores pos(label) - pos(base) with pos = section offset + label
+   offset, and it fits the width; an unbound label is reported *)
+Theorem C04_delta_expression_end_to_end : forall ops offs rid re l b base asize atoff slots o slots' n,
+  let s := run init ops in
+  nth_error (relocs s) rid = Some re -> rl_type re = Expr l b -> rl_size re = n -> n = 1 \/ n = 2 \/ n = 4 \/ n = 8 ->
+  relocate_entry base asize atoff slots (entry_of_reloc s offs re) = inl (o, slots') ->
+  exists ls lo bs bo,
+    nth_error (labels s) l = Some (Some (ls, lo)) /\ nth_error (labels s) b = Some (Some (bs, bo)) /\
+    let d := to_i64 (wrap 64 ((nth ls offs 0 + lo) - (nth bs offs 0 + bo))) in
+    decode_signed (sfmt n) (o_word o) = d /\ - 2 ^ (8 * n - 1) <= d < 2 ^ (8 * n - 1).
+Proof. exact delta_expression_end_to_end. Qed.
+Print Assumptions C04_delta_expression_end_to_end.
+
+Theorem C04_delta_expression_unbound_reported : forall ops offs rid re l b base asize atoff slots,
+  let s := run init ops in
+  nth_error (relocs s) rid = Some re -> rl_type re = Expr l b ->
+  (nth_error (labels s) l = Some None \/ nth_error (labels s) b = Some None) ->
+  relocate_entry base asize atoff slots (entry_of_reloc s offs re) = inr RExprUnbound.
+Proof. exact delta_expression_unbound_reported. Qed.
+Print Assumptions C04_delta_expression_unbound_reported.
+
+(* relocated section bytes for ANY entry list and address size (x86-32, 4-byte embedded labels): C10's `patch_all` = the writes of
+   relocate_to_base; installation of these bytes is C10's copy theorem (their JIT scenario itself is x86-64 with 8-byte labels) *)
+Theorem C04_relocated_site_bytes : forall base asize atoff reserved last es r data i e o,
+  relocate base asize atoff reserved last es = inl r ->
+  (forall e', In e' es -> site_wf data e') -> sites_disjoint es ->
+  nth_error es i = Some e -> nth_error (rr_outs r) i = Some o ->
+  (forall k, 0 <= k < vsize (e_fmt e) ->
+     cell (patch_all data es (rr_outs r)) (e_off e + e_lead e + k) = cell (le_bytes (Z.to_nat (vsize (e_fmt e))) (o_word o)) k) /\
+  exists s1 s2, relocate_entry base asize atoff s1 e = inl (o, s2).
+Proof. exact relocated_site_bytes. Qed.
+Print Assumptions C04_relocated_site_bytes.
+
+Theorem C04_relocated_abs32_site : forall base asize atoff reserved last es r data i e o toff,
+  relocate base asize atoff reserved last es = inl r ->
+  (forall e', In e' es -> site_wf data e') -> sites_disjoint es ->
+  nth_error es i = Some e -> nth_error (rr_outs r) i = Some o ->
+  e_kind e = RRelToAbs (Some toff) -> e_fmt e = ufmt 4 -> e_old e = 0 ->
+  let w := (e_payload e + base + toff) mod 2 ^ 64 in
+  w < 2 ^ 32 /\ forall k, 0 <= k < 4 -> cell (patch_all data es (rr_outs r)) (e_off e + e_lead e + k) = cell (le_bytes 4 w) k.
+Proof. exact relocated_abs32_site. Qed.
+Print Assumptions C04_relocated_abs32_site.
+
+Theorem C04_relocated_rel32_site32 : forall base asize atoff reserved last es r data i e o,
+  relocate base asize atoff reserved last es = inl r ->
+  (forall e', In e' es -> site_wf data e') -> sites_disjoint es ->
+  nth_error es i = Some e -> nth_error (rr_outs r) i = Some o ->
+  e_kind e = RAbsToRel -> asize <= 4 -> e_fmt e = fmt_of_kind K_Rel32 -> e_old e = 0 ->
+  rel_target 32 base (e_secoff e + e_off e + e_region e) (decode_kind K_Rel32 (o_word o)) = e_payload e mod 2 ^ 32 /\
+  forall k, 0 <= k < 4 -> cell (patch_all data es (rr_outs r)) (e_off e + e_lead e + k) = cell (le_bytes 4 (o_word o)) k.
+Proof. exact relocated_rel32_site32. Qed.
+Print Assumptions C04_relocated_rel32_site32.
